@@ -60,4 +60,9 @@ Definition esc_prefix_is_backslash : bool :=
 (** [escape_text] is, in each mode, exactly one regex substitution with the table callback: the shape for which
     [EscPipelineProofs.pipeline_is_escape] identifies it with the per-character model [Escape.escape gen_tables]. *)
 Definition escape_rows_wellformed : bool := rows_wellformed G.esc_pipeline.
-Definition escape_is_one_substitution (ml : bool) : bool := is_single_sub gen_pipeline ml.
+Definition escape_is_one_substitution (ml : bool) : bool := G.esc_pipeline_translated && is_single_sub gen_pipeline ml.
+
+(** [escape_text] is modelled as a FUNCTION of (text, multiline): faithful only if it (and the callback / helpers it uses) keeps
+    nothing between calls - no decorator, no [global], no mutable module-level object read or modified, no shared default
+    (translate/c02_tables.py [escape_text_census]; round 5: a cache of "nothing to escape" strings shared by the two modes). *)
+Definition escape_text_uses_no_state_outliving_the_call : bool := match G.esc_state with [] => true | _ => false end.
